@@ -138,7 +138,13 @@ func (s *attrStore) Attrs(id uint64) (m map[string]interface{}, err error) {
 	// Add to cache.
 	s.attrCache.Set(id, m)
 
-	return m, nil
+	// Hand out a copy, as on a cache hit: the caller owns the returned map
+	// and may modify it, which must not change the cached attributes.
+	ret := make(map[string]interface{}, len(m))
+	for k, v := range m {
+		ret[k] = v
+	}
+	return ret, nil
 }
 
 // SetAttrs sets attribute values for a given ID.
@@ -280,7 +286,7 @@ func (s *attrStore) BlockData(i uint64) (m map[uint64]map[string]interface{}, er
 func txAttrs(tx *bolt.Tx, id uint64) (map[string]interface{}, error) {
 	v := tx.Bucket([]byte("attrs")).Get(u64tob(id))
 	if v == nil {
-		return emptyMap, nil
+		return make(map[string]interface{}), nil
 	}
 	return pilosa.DecodeAttrs(v)
 }
@@ -293,7 +299,7 @@ func txUpdateAttrs(tx *bolt.Tx, id uint64, m map[string]interface{}) (map[string
 		return nil, err
 	}
 
-	// Create a new map if it is empty so we don't update emptyMap.
+	// Create a new map if it is empty.
 	if len(attr) == 0 {
 		attr = make(map[string]interface{}, len(m))
 	}
@@ -340,9 +346,6 @@ func u64tob(v uint64) []byte {
 
 // btou64 decodes b from big endian encoding.
 func btou64(b []byte) uint64 { return binary.BigEndian.Uint64(b) }
-
-// emptyMap is a reusable map that contains no keys.
-var emptyMap = make(map[string]interface{})
 
 // mapContains returns true if all keys & values of subset are in m.
 func mapContains(m, subset map[string]interface{}) bool {
